@@ -14,6 +14,7 @@ import (
 
 	"verif/harness/internal/drv"
 	"verif/harness/internal/fe"
+	"verif/harness/internal/fmtw"
 )
 
 // FMCase is one abstract request list of FindMissing.tla.
@@ -36,11 +37,13 @@ const proxyLimit = 6000 // max_proxy_blob_size used by the fixture
 
 type fmPools struct {
 	byClass map[string][]*pb.Digest
+	// the same hash under its stored size / under another size: requests deliberately contain both
+	right, wrong map[string]*pb.Digest
 }
 
 func policyMissing(class string, backend bool) bool {
 	switch class {
-	case "localOtherSize", "backendOversize", "absent":
+	case "localOtherSize", "backendOtherSize", "backendOversize", "absent":
 		return true
 	case "backendOnly":
 		return !backend
@@ -50,7 +53,16 @@ func policyMissing(class string, backend bool) bool {
 
 // buildPools creates 48 digests per class in the fixture (and its backend).
 func buildPools(f *fe.Fixture, p *drv.FakeProxy, mode string, rng *rand.Rand) (*fmPools, error) {
-	pools := &fmPools{byClass: map[string][]*pb.Digest{}}
+	pools := &fmPools{byClass: map[string][]*pb.Digest{}, right: map[string]*pb.Digest{}, wrong: map[string]*pb.Digest{}}
+	otherSize := func(d *pb.Digest) *pb.Digest {
+		n := d.SizeBytes + 1 + int64(rng.Intn(5))
+		if d.SizeBytes > 1 && rng.Intn(2) == 0 {
+			n = d.SizeBytes - 1
+		}
+		o := &pb.Digest{Hash: d.Hash, SizeBytes: n}
+		pools.right[d.Hash], pools.wrong[d.Hash] = d, o
+		return o
+	}
 	ctx := context.Background()
 	for i := 0; i < 48; i++ {
 		mk := func(n int) drv.Blob { return drv.MkBlob(drv.GenData(rng, n, i%3)) }
@@ -61,20 +73,29 @@ func buildPools(f *fe.Fixture, p *drv.FakeProxy, mode string, rng *rand.Rand) (*
 		if err := f.Cache.Put(ctx, cache.CAS, b.Hash, int64(len(b.Data)), bytes.NewReader(b.Data)); err != nil {
 			return nil, err
 		}
-		pools.byClass["local"] = append(pools.byClass["local"], &pb.Digest{Hash: b.Hash, SizeBytes: int64(len(b.Data))})
-		// held locally under another size
-		b = mk(sz())
-		if err := f.Cache.Put(ctx, cache.CAS, b.Hash, int64(len(b.Data)), bytes.NewReader(b.Data)); err != nil {
-			return nil, err
+		loc := &pb.Digest{Hash: b.Hash, SizeBytes: int64(len(b.Data))}
+		pools.byClass["local"] = append(pools.byClass["local"], loc)
+		// held locally under another size: the hash of a blob that is also asked for under its right size
+		// (even i), or of a stored blob that is otherwise not part of any request
+		if i%2 == 0 {
+			pools.byClass["localOtherSize"] = append(pools.byClass["localOtherSize"], otherSize(loc))
+		} else {
+			b = mk(sz())
+			if err := f.Cache.Put(ctx, cache.CAS, b.Hash, int64(len(b.Data)), bytes.NewReader(b.Data)); err != nil {
+				return nil, err
+			}
+			pools.byClass["localOtherSize"] = append(pools.byClass["localOtherSize"], &pb.Digest{Hash: b.Hash, SizeBytes: int64(len(b.Data)) + 1 + int64(rng.Intn(5))})
 		}
-		pools.byClass["localOtherSize"] = append(pools.byClass["localOtherSize"], &pb.Digest{Hash: b.Hash, SizeBytes: int64(len(b.Data)) + 1 + int64(rng.Intn(5))})
 		// absent everywhere
 		b = mk(sz())
 		pools.byClass["absent"] = append(pools.byClass["absent"], &pb.Digest{Hash: b.Hash, SizeBytes: int64(len(b.Data))})
 		pools.byClass["empty"] = append(pools.byClass["empty"], &pb.Digest{Hash: "e3b0c44298fc1c149afbf4c8996fb92427ae41e4649b934ca495991b7852b855", SizeBytes: 0})
 		// only in the backend, within / above max_proxy_blob_size
 		b = mk(sz())
-		pools.byClass["backendOnly"] = append(pools.byClass["backendOnly"], &pb.Digest{Hash: b.Hash, SizeBytes: int64(len(b.Data))})
+		bo := &pb.Digest{Hash: b.Hash, SizeBytes: int64(len(b.Data))}
+		pools.byClass["backendOnly"] = append(pools.byClass["backendOnly"], bo)
+		// held by the backend under another size
+		pools.byClass["backendOtherSize"] = append(pools.byClass["backendOtherSize"], otherSize(bo))
 		big := mk(proxyLimit + 1 + rng.Intn(2000))
 		pools.byClass["backendOversize"] = append(pools.byClass["backendOversize"], &pb.Digest{Hash: big.Hash, SizeBytes: int64(len(big.Data))})
 		if p != nil {
@@ -132,6 +153,13 @@ func RunFindMissing(cases []FMCase, seed int64, lengths []int, mode string) (run
 					}
 					var req []*pb.Digest
 					var want []*pb.Digest
+					// class of each concrete digest (duplicates included)
+					classOf := map[string]string{}
+					for cl, pool := range pools.byClass {
+						for _, d := range pool {
+							classOf[fmt.Sprintf("%s/%d", d.Hash, d.SizeBytes)] = cl
+						}
+					}
 					for i := 0; i < T; i++ {
 						var cl string
 						if layout == "tile" {
@@ -145,16 +173,23 @@ func RunFindMissing(cases []FMCase, seed int64, lengths []int, mode string) (run
 							// duplicate an earlier digest of the request
 							d = req[rng.Intn(len(req))]
 							cl = ""
+						} else if len(req) > 0 && rng.Intn(2) == 0 {
+							// the same hash as an earlier digest of the request, under the other size:
+							// right size after wrong size and wrong size after right size
+							e := req[rng.Intn(len(req))]
+							switch {
+							case (cl == "localOtherSize" || cl == "backendOtherSize") && pools.wrong[e.Hash] != nil && e.SizeBytes == pools.right[e.Hash].SizeBytes:
+								if o := pools.wrong[e.Hash]; classOf[fmt.Sprintf("%s/%d", o.Hash, o.SizeBytes)] == cl {
+									d = o
+								}
+							case (cl == "local" || cl == "backendOnly") && pools.right[e.Hash] != nil && e.SizeBytes != pools.right[e.Hash].SizeBytes:
+								if o := pools.right[e.Hash]; classOf[fmt.Sprintf("%s/%d", o.Hash, o.SizeBytes)] == cl {
+									d = o
+								}
+							}
 						}
 						cp := &pb.Digest{Hash: d.Hash, SizeBytes: d.SizeBytes}
 						req = append(req, cp)
-					}
-					// expectation by class of each concrete digest (duplicates included)
-					classOf := map[string]string{}
-					for cl, pool := range pools.byClass {
-						for _, d := range pool {
-							classOf[fmt.Sprintf("%s/%d", d.Hash, d.SizeBytes)] = cl
-						}
 					}
 					for _, d := range req {
 						if policyMissing(classOf[fmt.Sprintf("%s/%d", d.Hash, d.SizeBytes)], backend) {
@@ -209,5 +244,80 @@ func RunFindMissing(cases []FMCase, seed int64, lengths []int, mode string) (run
 		wg.Wait()
 		f.Close()
 	}
+	r2, v2, e := fmSaturation(seed, mode)
+	runs = append(runs, r2...)
+	viols = append(viols, v2...)
+	return runs, viols, e
+}
+
+// fmSaturation: more backend checks outstanding than the hand-off queue (QueueCap of FindMissing.tla, 2048
+// in the code) and the workers (512) hold together, against a backend that takes its time: one long request,
+// then several clients at once.  The specification's Enqueue blocks on a full queue; the answer stays exact.
+func fmSaturation(seed int64, mode string) (runs []FMRun, viols []drv.Violation, err error) {
+	rng := rand.New(rand.NewSource(seed + 4242))
+	p := drv.NewFakeProxy()
+	p.Delay = 12 * time.Millisecond
+	f, e := fe.New(fe.Opts{Mode: mode, MaxSize: 1 << 30, Proxy: p, ProxyMaxBlob: proxyLimit})
+	if e != nil {
+		return nil, nil, e
+	}
+	defer f.Close()
+	mk := func(tag string, n int) (req, want []*pb.Digest) {
+		for i := 0; i < n; i++ {
+			h := fmtw.Sha([]byte(fmt.Sprintf("sat-%s-%d-%d", tag, seed, i)))
+			sz := int64(10 + rng.Intn(90))
+			d := &pb.Digest{Hash: h, SizeBytes: sz}
+			if rng.Intn(9) == 0 {
+				want = append(want, d) // absent everywhere
+			} else {
+				p.SetObj(cache.LookupKey(cache.CAS, h), []byte{1}, sz)
+			}
+			req = append(req, d)
+		}
+		return
+	}
+	ask := func(label string, req, want []*pb.Digest) {
+		ctx, cancel := context.WithTimeout(context.Background(), 120*time.Second)
+		resp, e := f.CAS.FindMissingBlobs(ctx, &pb.FindMissingBlobsRequest{BlobDigests: req})
+		cancel()
+		run := FMRun{Backend: true, Len: len(req), Pattern: []string{"backendOnly", "absent"}, Layout: label, Expected: len(want)}
+		if e != nil {
+			fmMu.Lock()
+			viols = append(viols, drv.Violation{Prop: "C10", What: fmt.Sprintf("%s: FindMissingBlobs of %d digests against a slow backend failed: %v", label, len(req), e)})
+			fmMu.Unlock()
+			return
+		}
+		got := resp.MissingBlobDigests
+		run.Got = len(got)
+		ok := len(got) == len(want)
+		for i := 0; ok && i < len(got); i++ {
+			ok = got[i].Hash == want[i].Hash && got[i].SizeBytes == want[i].SizeBytes
+		}
+		fmMu.Lock()
+		defer fmMu.Unlock()
+		runs = append(runs, run)
+		if !ok {
+			viols = append(viols, drv.Violation{Prop: "C10", What: fmt.Sprintf("%s: %d digests, all but %d held by a slow backend (%v per lookup): %d reported missing, %d expected - a digest the backend holds throughout is reported missing (or order differs) once more lookups are outstanding than queue and workers hold", label, len(req), len(want), p.Delay, len(got), len(want)), Op: len(req)})
+		}
+	}
+	req, want := mk("one", 2048+512+600)
+	ask("saturating request", req, want)
+	var wg sync.WaitGroup
+	type rw struct{ req, want []*pb.Digest }
+	var all []rw
+	for c := 0; c < 8; c++ {
+		r, w := mk(fmt.Sprintf("c%d", c), 520)
+		all = append(all, rw{r, w})
+	}
+	for c := range all {
+		wg.Add(1)
+		go func(c int) {
+			defer wg.Done()
+			ask(fmt.Sprintf("client %d of 8 concurrent", c), all[c].req, all[c].want)
+		}(c)
+	}
+	wg.Wait()
 	return runs, viols, nil
 }
+
+var fmMu sync.Mutex
